@@ -582,6 +582,20 @@ def builtin_corpus():
             if w[1] == "p" and isinstance(r, type):
                 pass
             out.append({"a": name, "wrap": w, "desc": {"a": name, "wrap": w, "l": _v(l), "r": _v(r)}})
+    # exactly on the tolerance (`abs(a - b) < delta` is strict) and exact_strings, with explicit parameters
+    for fam in (("assert_equal", "assert_not_equal"), ("assert_almost_equal", "assert_not_almost_equal")):
+        for name in fam:
+            for l, r, extra in [(1.0, 0.5, {"delta": 0.5}), (0.5, 1.0, {"delta": 0.5}), (1, 1.125, {"delta": 0.125}),
+                                (1.125, 1, {"delta": 0.125}), (1.0, 1.125, {"delta": 0.125}), (True, 1.5, {"delta": 0.5}),
+                                ([1, 1.5], [1, 2], {"delta": 0.5}), ({"a": 1.5}, {"a": 2}, {"delta": 0.5}),
+                                ({1.5}, {2.0}, {"delta": 0.5}), (1.0, 1.25, {"delta": 0.5}), (3, 3.0, {"delta": 0.125}),
+                                ("Ab.", "ab", {"exact": True}), ("ab", "ab", {"exact": True}),
+                                (["Ab."], ["ab"], {"exact": True}), ({"k": "Ab."}, {"k": "ab"}, {"exact": True}),
+                                ("a b", "a  b", {"exact": True}), ("a\nb", "b\na", {"exact": True})]:
+                for w in ("rr", "pp"):
+                    d = {"a": name, "wrap": w, "l": _v(l), "r": _v(r)}
+                    d.update(extra)
+                    out.append({"a": name, "wrap": w, "desc": d})
     unary = [None, 0, 0.0, "", [], (), {}, set(), False, True, 1, "a", [0], " "]
     for name in ac.UNARY:
         for v in unary:
@@ -748,8 +762,10 @@ def search(rng, tier, broken, corr):
             key = json.dumps(sig, sort_keys=True)
             size = len(json.dumps(d))
             if key not in best or size < best[key][0]:
-                what = "%s(%s%s) [%s] is %s but the relation %s" % (
-                    name, _short(a), "" if b is None else ", " + _short(b), case["wrap"], real,
+                opts = "".join(", %s=%r" % (k, kw[k]) for k in ("exact", "delta", "spelling")
+                               if kw.get(k) not in (None, False))
+                what = "%s(%s%s%s) [%s] is %s but the relation %s" % (
+                    name, _short(a), "" if b is None else ", " + _short(b), opts, case["wrap"], real,
                     "holds" if want == "silent" else "does not hold / cannot be evaluated")
                 best[key] = (size, Failure(sig, what, {"case": d, "real": real, "expected": want}))
     # unit_test
